@@ -1,7 +1,7 @@
 (* Props/C07.v — pinned statements for property C07 (CborLen is exact).
    Built-in impls: names starting C07_types (this slice).  Token and derived-type theorems are added by
    other slices. *)
-From MC Require Import Bytes Monad Cbor Decoder Encoder Types TypesEnc TypesLen TypesFacts Sink LenBuffer.
+From MC Require Import Bytes Monad Cbor Decoder Encoder Types TypesEnc TypesLen TypesFacts Sink LenBuffer Iana IanaFacts.
 Local Open Scope N_scope.
 
 (* For every well-formed descriptor t and every value v the encoder accepts, the computed length is
@@ -18,6 +18,10 @@ Theorem C07_buffer : forall k t v cs, bounded k = true -> ty_ok t = true -> enco
   /\ (forall cap, cap < len_ty t v -> fst (run_sink (sink_new k cap) cs) = false).
 Proof. exact len_buffer. Qed.
 
+(* CborLen for IanaTag (encode.rs:430) *)
+Theorem C07_iana : forall t, len_iana t = len (flat (enc_iana t)).
+Proof. exact iana_len_exact. Qed.
+
 Example C07_types_example :
   ty_ok rt_example_ty = true /\
   match encode_ty rt_example_ty rt_example_val with
@@ -28,3 +32,4 @@ Proof. vm_compute. auto. Qed.
 
 Print Assumptions C07_types.
 Print Assumptions C07_buffer.
+Print Assumptions C07_iana.
